@@ -84,84 +84,21 @@ theorem filter_noPrefix (l : RuleCat) (p : Name)
       simp [ih h]
 
 /-- the FS effect of one catalog operation is nothing, one rule-catalog save, one schema-catalog save, or (for
-    `drop_relation` on a name that is both) a schema-catalog save followed by a rule-catalog save; memory changes
-    accordingly. -/
+    `drop_relation` on a name that is both) a schema-catalog save followed by a rule-catalog save; the rule catalog
+    and the *persistent* schema map change accordingly (the session map is never written). -/
 theorem step_cases (m : Mem) (o : COp) :
-    ((step m o).2.2 = [] ∧ (step m o).2.1 = m) ∨
-    (∃ r, (step m o).2.2 = saveRules r ∧ (step m o).2.1 = { m with rules := r }) ∨
-    (∃ s, (step m o).2.2 = saveSchemas s ∧ (step m o).2.1 = { m with schemas := s }) ∨
-    (∃ r s, (step m o).2.2 = saveSchemas s ++ saveRules r ∧ (step m o).2.1 = { rules := r, schemas := s }) := by
-  cases o with
-  | reg n c =>
-    simp only [step]
-    split
-    · exact .inl ⟨rfl, rfl⟩
-    · split
-      · exact .inl ⟨rfl, rfl⟩
-      · split
-        · split
-          · split
-            · exact .inl ⟨rfl, rfl⟩
-            · exact .inr (.inl ⟨_, rfl, rfl⟩)
-          · exact .inr (.inl ⟨_, rfl, rfl⟩)
-        · exact .inr (.inl ⟨_, rfl, rfl⟩)
-  | drop n =>
-    simp only [step]
-    split
-    · exact .inl ⟨rfl, rfl⟩
-    · exact .inr (.inl ⟨_, rfl, rfl⟩)
-  | dropPrefix p =>
-    simp only [step]
-    split
-    · exact .inl ⟨rfl, rfl⟩
-    · split
-      · rename_i hhit
-        refine .inl ⟨rfl, ?_⟩
-        simp only [filter_noPrefix m.rules p hhit]
-      · exact .inr (.inl ⟨_, rfl, rfl⟩)
-  | clear n =>
-    simp only [step]
-    split
-    · exact .inl ⟨rfl, rfl⟩
-    · exact .inr (.inl ⟨_, rfl, rfl⟩)
-  | replace n i c =>
-    simp only [step]
-    split
-    · exact .inl ⟨rfl, rfl⟩
-    · split
-      · exact .inl ⟨rfl, rfl⟩
-      · exact .inr (.inl ⟨_, rfl, rfl⟩)
-  | rmClause n i =>
-    simp only [step]
-    split
-    · exact .inl ⟨rfl, rfl⟩
-    · split
-      · exact .inl ⟨rfl, rfl⟩
-      · exact .inr (.inl ⟨_, rfl, rfl⟩)
-  | sreg r s =>
-    simp only [step]
-    split
-    · exact .inl ⟨rfl, rfl⟩
-    · split
-      · exact .inl ⟨rfl, rfl⟩
-      · exact .inr (.inr (.inl ⟨_, rfl, rfl⟩))
-  | supd r s =>
-    simp only [step]
-    split
-    · exact .inl ⟨rfl, rfl⟩
-    · exact .inr (.inr (.inl ⟨_, rfl, rfl⟩))
-  | srem r =>
-    simp only [step]
-    split
-    · exact .inl ⟨rfl, rfl⟩
-    · exact .inr (.inr (.inl ⟨_, rfl, rfl⟩))
-  | dropRel n =>
-    simp only [step]
-    split
-    · exact .inl ⟨rfl, rfl⟩
-    · exact .inr (.inr (.inl ⟨_, rfl, rfl⟩))
-    · exact .inr (.inl ⟨_, rfl, rfl⟩)
-    · exact .inr (.inr (.inr ⟨_, _, rfl, rfl⟩))
+    ((step m o).2.2 = [] ∧ (step m o).2.1.rules = m.rules ∧ (step m o).2.1.schemas = m.schemas) ∨
+    (∃ r, (step m o).2.2 = saveRules r ∧ (step m o).2.1.rules = r ∧ (step m o).2.1.schemas = m.schemas) ∨
+    (∃ s, (step m o).2.2 = saveSchemas s ∧ (step m o).2.1.rules = m.rules ∧ (step m o).2.1.schemas = s) ∨
+    (∃ r s, (step m o).2.2 = saveSchemas s ++ saveRules r ∧ (step m o).2.1.rules = r ∧ (step m o).2.1.schemas = s) := by
+  cases o <;> simp only [step] <;> repeat' split
+  all_goals first
+    | exact .inl ⟨trivial, trivial, trivial⟩
+    | exact .inl ⟨rfl, rfl, rfl⟩
+    | exact .inr (.inl ⟨_, rfl, rfl, rfl⟩)
+    | exact .inr (.inr (.inl ⟨_, rfl, rfl, rfl⟩))
+    | exact .inr (.inr (.inr ⟨_, _, rfl, rfl, rfl⟩))
+    | (refine .inl ⟨rfl, ?_, rfl⟩; rename_i hhit; simp only [filter_noPrefix _ _ hhit])
 
 /-! ### the invariant: the catalog files are complete, fully synced documents holding what is in memory -/
 
@@ -363,20 +300,20 @@ theorem crashpoint_ok (m : Mem) (d : Disk) (o : COp) (j : Nat) (hS : Solid { mem
       RulesOk (applyAll d ((step m o).2.2.take j)) r ∧ SchemasOk (applyAll d ((step m o).2.2.take j)) s := by
   obtain ⟨hr, hs⟩ := hS
   simp only at hr hs
-  rcases step_cases m o with ⟨h1, h2⟩ | ⟨r', h1, h2⟩ | ⟨s', h1, h2⟩ | ⟨r', s', h1, h2⟩
+  rcases step_cases m o with ⟨h1, h2, h3⟩ | ⟨r', h1, h2, h3⟩ | ⟨s', h1, h2, h3⟩ | ⟨r', s', h1, h2, h3⟩
   · exact ⟨m.rules, m.schemas, .inl rfl, .inl rfl, by simpa [h1, applyAll] using hr, by simpa [h1, applyAll] using hs⟩
   · obtain ⟨ha, hb, _⟩ := saveRules_prefix d m.rules r' m.schemas hr hs j
-    rw [h1, h2]
+    rw [h1, h2, h3]
     rcases ha with ha | ha
     · exact ⟨m.rules, m.schemas, .inl rfl, .inl rfl, ha, hb⟩
     · exact ⟨r', m.schemas, .inr rfl, .inl rfl, ha, hb⟩
   · obtain ⟨ha, hb, _⟩ := saveSchemas_prefix d m.rules m.schemas s' hs hr j
-    rw [h1, h2]
+    rw [h1, h2, h3]
     rcases ha with ha | ha
     · exact ⟨m.rules, m.schemas, .inl rfl, .inl rfl, hb, ha⟩
     · exact ⟨m.rules, s', .inl rfl, .inr rfl, hb, ha⟩
   · obtain ⟨ha, hb, hc⟩ := saveSchemas_prefix d m.rules m.schemas s' hs hr j
-    rw [h1, h2]
+    rw [h1, h2, h3]
     have hlen : (saveSchemas s').length = 5 := rfl
     rw [List.take_append, hlen, applyAll_append]
     rcases ha with ha | ha
@@ -394,26 +331,35 @@ theorem complete_ok (m : Mem) (d : Disk) (o : COp) (hS : Solid { mem := m, disk 
     Solid { mem := (step m o).2.1, disk := applyAll d (step m o).2.2 } := by
   obtain ⟨hr, hs⟩ := hS
   simp only at hr hs
-  rcases step_cases m o with ⟨h1, h2⟩ | ⟨r', h1, h2⟩ | ⟨s', h1, h2⟩ | ⟨r', s', h1, h2⟩
-  · rw [h1, h2]; exact ⟨by simpa [applyAll] using hr, by simpa [applyAll] using hs⟩
-  · obtain ⟨_, hb, hc⟩ := saveRules_prefix d m.rules r' m.schemas hr hs 5
-    rw [h1, h2]
-    exact ⟨by simpa [saveRules] using hc (Nat.le_refl 5), by simpa [saveRules] using hb⟩
-  · obtain ⟨_, hb, hc⟩ := saveSchemas_prefix d m.rules m.schemas s' hs hr 5
-    rw [h1, h2]
-    exact ⟨by simpa [saveSchemas] using hb, by simpa [saveSchemas] using hc (Nat.le_refl 5)⟩
+  refine ⟨?_, ?_⟩ <;> simp only
+  all_goals rcases step_cases m o with ⟨h1, h2, h3⟩ | ⟨r', h1, h2, h3⟩ | ⟨s', h1, h2, h3⟩ | ⟨r', s', h1, h2, h3⟩
+  all_goals rw [h1]
+  · rw [h2]; simpa [applyAll] using hr
+  · obtain ⟨_, _, hc⟩ := saveRules_prefix d m.rules r' m.schemas hr hs 5
+    rw [h2]; simpa [saveRules] using hc (Nat.le_refl 5)
+  · obtain ⟨_, hb, _⟩ := saveSchemas_prefix d m.rules m.schemas s' hs hr 5
+    rw [h2]; simpa [saveSchemas] using hb
   · obtain ⟨_, hb, hc⟩ := saveSchemas_prefix d m.rules m.schemas s' hs hr 5
     have hb' : RulesOk (applyAll d (saveSchemas s')) m.rules := by simpa [saveSchemas] using hb
     have hc' : SchemasOk (applyAll d (saveSchemas s')) s' := by simpa [saveSchemas] using hc (Nat.le_refl 5)
-    obtain ⟨_, hy, hz⟩ := saveRules_prefix _ m.rules r' s' hb' hc' 5
-    rw [h1, h2, applyAll_append]
-    exact ⟨by simpa [saveRules] using hz (Nat.le_refl 5), by simpa [saveRules] using hy⟩
+    obtain ⟨_, _, hz⟩ := saveRules_prefix _ m.rules r' s' hb' hc' 5
+    rw [h2, applyAll_append]; simpa [saveRules] using hz (Nat.le_refl 5)
+  · rw [h3]; simpa [applyAll] using hs
+  · obtain ⟨_, hb, _⟩ := saveRules_prefix d m.rules r' m.schemas hr hs 5
+    rw [h3]; simpa [saveRules] using hb
+  · obtain ⟨_, _, hc⟩ := saveSchemas_prefix d m.rules m.schemas s' hs hr 5
+    rw [h3]; simpa [saveSchemas] using hc (Nat.le_refl 5)
+  · obtain ⟨_, hb, hc⟩ := saveSchemas_prefix d m.rules m.schemas s' hs hr 5
+    have hb' : RulesOk (applyAll d (saveSchemas s')) m.rules := by simpa [saveSchemas] using hb
+    have hc' : SchemasOk (applyAll d (saveSchemas s')) s' := by simpa [saveSchemas] using hc (Nat.le_refl 5)
+    obtain ⟨_, hy, _⟩ := saveRules_prefix _ m.rules r' s' hb' hc' 5
+    rw [h3, applyAll_append]; simpa [saveRules] using hy
 
 /-- a reopen is acceptable iff the engine opens and each catalog is the one of before or after the operation in
     flight. -/
 def outOk : Out → Prop
   | .reboot old new got => ∃ m, got = some m ∧ (m.rules = old.rules ∨ m.rules = new.rules) ∧
-      (m.schemas = old.schemas ∨ m.schemas = new.schemas)
+      (m.schemas = old.schemas ∨ m.schemas = new.schemas) ∧ m.session = []
   | .ack _ _ => True
 
 /-- one history item from a solid state: the reopen (if any) is acceptable and the next state is solid. -/
@@ -432,7 +378,7 @@ theorem runItem_solid (st : St) (it : HItem) (hS : Solid st) :
     simp only at hr
     refine ⟨?_, ?_⟩
     · simp only [runItem, rebootFrom, hr, outOk]
-      exact ⟨_, rfl, .inl rfl, .inl rfl⟩
+      exact ⟨_, rfl, .inl rfl, .inl rfl, rfl⟩
     · intro st' hst
       simp only [runItem, rebootFrom, hr, Option.map_some, Option.some.injEq] at hst
       subst hst
@@ -445,7 +391,7 @@ theorem runItem_solid (st : St) (it : HItem) (hS : Solid st) :
     rw [himg]
     refine ⟨?_, ?_⟩
     · simp only [rebootFrom, hrec, outOk]
-      exact ⟨_, rfl, hr1, hs1⟩
+      exact ⟨_, rfl, hr1, hs1, rfl⟩
     · intro st' hst
       simp only [rebootFrom, hrec, Option.map_some, Option.some.injEq] at hst
       subst hst
